@@ -419,6 +419,40 @@ class Program:
                 vals.append(self.val_def(fn, body, s, local))
         return phi(vals)
 
+    def alts_with_sites(self, fn, loc, place, body=None, depth=0):
+        """[(def site (bb, idx, kind) | 'entry', value)] of a place: follows plain copies/moves back to the
+        definitions of the first local that has several reaching definitions (so each alternative keeps its block)."""
+        body = body or fn.body
+        sites = body.reaching(loc, place["l"])
+        out = []
+        for s in sites:
+            if s == "entry":
+                v = self.val_local_in(fn, body, (0, 0), place["l"])
+                for e in place["p"]:
+                    v = self.apply_proj(fn, body, loc, v, e)
+                out.append(("entry", v))
+                continue
+            b, i, kind = s
+            if kind == "full" and depth < 12:
+                rv = body.blocks[b]["stmts"][i]["rv"]
+                src = None
+                if rv["k"] == "use" and rv["op"]["k"] in ("copy", "move"):
+                    src = rv["op"]["place"]
+                elif rv["k"] == "ref":
+                    src = rv["place"]
+                if src is not None and len(sites) == 1:
+                    inner = self.alts_with_sites(fn, (b, i), src, body, depth + 1)
+                    for (s2, v2) in inner:
+                        for e in place["p"]:
+                            v2 = self.apply_proj(fn, body, loc, v2, e)
+                        out.append((s2, v2))
+                    continue
+            v = self.val_def(fn, body, s, place["l"])
+            for e in place["p"]:
+                v = self.apply_proj(fn, body, loc, v, e)
+            out.append((s, v))
+        return out
+
     def val_def(self, fn, body, site, local):
         b, i, kind = site
         key = (fn.path, body.tag, b, i, kind, local)
